@@ -27,6 +27,8 @@ def gen(rng, spec):
     case['config']['pruning_size'] = rng.choice((50, 50, T, T, T + 1, max(1, T - 1), rng.randint(1, T)))
     if rng.random() < 0.08:
         search.extreme_rows(rng, case)
+    elif rng.random() < 0.06:
+        search.neginf_arcs(rng, case)          # derivations of score -inf are derivations: they count towards min(k, N)
     return case
 
 
